@@ -346,6 +346,164 @@ func c09Gate(c *Ctx, r *Report, w, ev *ssa.Function) {
 		r.check("C09.GATE", key, ci.Pos(), gated, "dispatch is not dominated by the false branch of the directive evaluator's result for the same selection: an excluded selection would still be resolved")
 	}
 	r.floor("C09.GATE", "dispatch calls (field, inline fragment, fragment spread)", n, 3)
+	c09Only(c, r, w, ev, reach)
+	c09Attach(c, r)
+}
+
+// c09Attach: the directives the evaluator sees for a selection are the ones written on that selection. A
+// request node's directive list is assigned only from the directive reader's result; it is never
+// extended with the directives of another node (e.g. when equal fields are merged at parse time).
+func c09Attach(c *Ctx, r *Report) {
+	r.rule("C09.ATTACH", "no store into the Dirs of a request node has a value derived from a load of another Dirs field: directive uses stay attached to the selection they were written on")
+	n := 0
+	for _, fn := range c.allFns {
+		k := 0
+		for _, b := range fn.Blocks {
+			for _, in := range b.Instrs {
+				st, ok := in.(*ssa.Store)
+				if !ok {
+					continue
+				}
+				fa, ok := st.Addr.(*ssa.FieldAddr)
+				if !ok {
+					continue
+				}
+				o, f := fieldOwner(fa.X.Type(), fa.Field)
+				if f != "Dirs" || !requestTypes[o] {
+					continue
+				}
+				n++
+				k++
+				from := ""
+				seen := map[ssa.Value]bool{}
+				var walk func(v ssa.Value, d int)
+				walk = func(v ssa.Value, d int) {
+					if d > 8 || seen[v] || from != "" {
+						return
+					}
+					seen[v] = true
+					switch t := v.(type) {
+					case *ssa.Call:
+						if isBuiltinCall(t, "append") {
+							for _, a := range t.Call.Args {
+								walk(a, d+1)
+							}
+						}
+					case *ssa.Slice:
+						walk(t.X, d+1)
+					case *ssa.Phi:
+						for _, e := range t.Edges {
+							walk(e, d+1)
+						}
+					case *ssa.UnOp:
+						if fa2, ok := t.X.(*ssa.FieldAddr); ok {
+							if o2, f2 := fieldOwner(fa2.X.Type(), fa2.Field); f2 == "Dirs" && !sameVal(fa2.X, fa.X) {
+								from = o2 + ".Dirs of another node"
+							}
+						}
+					}
+				}
+				walk(st.Val, 0)
+				r.check("C09.ATTACH", fmt.Sprintf("%s: directive list store #%d of a %s takes only that node's own directives", fnName(fn), k, o), st.Pos(), from == "",
+					"the list is extended with "+from+": a @skip or @include written on one occurrence of a field then also decides for another occurrence that carries no directive")
+			}
+		}
+	}
+	r.floor("C09.ATTACH", "stores into directive lists of request nodes", n, 3)
+}
+
+// c09Only: the directive evaluator is the only reason for which the walker passes over a selection.
+// In the walker's loop every path of an iteration on which the evaluator answered "not excluded" reaches
+// one of the dispatch calls; the path on which every kind test of the selection fails is infeasible when
+// the case types cover all implementers of Selection.
+func c09Only(c *Ctx, r *Report, w, ev *ssa.Function, reach map[*ssa.Function]bool) {
+	r.rule("C09.ONLY", "in the selection walker no iteration on which the directive evaluator answered false completes without a dispatch call: @skip/@include are the only way a selection is left out")
+	loops := loopsOf(w)
+	var evCall *ssa.Call
+	for _, ci := range callsIn(w) {
+		if call, ok := ci.(*ssa.Call); ok && call.Call.StaticCallee() == ev {
+			evCall = call
+		}
+	}
+	if evCall == nil {
+		r.undecided("C09.ONLY", fnName(w)+": evaluator call", w.Pos(), "not found")
+		return
+	}
+	l := innermostLoop(loops, evCall.Block())
+	if l == nil {
+		r.undecided("C09.ONLY", fnName(w)+": walker loop", evCall.Pos(), "the evaluator call is not inside a loop over the selections")
+		return
+	}
+	dispatch := map[*ssa.BasicBlock]bool{}
+	for _, ci := range callsIn(w) {
+		cal := ci.Common().StaticCallee()
+		if cal != nil && reach[cal] && cal != ev && l.body[ci.Block()] {
+			dispatch[ci.Block()] = true
+		}
+	}
+	impl := map[string]bool{}
+	for _, t := range c.implementers("Selection") {
+		impl[typeStr(t)] = true
+	}
+	skipV := extractOf(evCall, 0)
+	var bad *ssa.BasicBlock
+	var dfs func(b *ssa.BasicBlock, failed map[string]bool, seen map[*ssa.BasicBlock]bool) bool
+	dfs = func(b *ssa.BasicBlock, failed map[string]bool, seen map[*ssa.BasicBlock]bool) bool {
+		if !l.body[b] || dispatch[b] || seen[b] {
+			return false
+		}
+		seen[b] = true
+		defer delete(seen, b)
+		for i, sc := range b.Succs {
+			nf := failed
+			if len(b.Instrs) > 0 {
+				if ifi, ok := b.Instrs[len(b.Instrs)-1].(*ssa.If); ok && b.Succs[0] != b.Succs[1] {
+					g := normGuard(guard{ifi.Cond, i == 0, ifi})
+					// the excluded path
+					if skipV != nil && g.cond == skipV && g.val {
+						continue
+					}
+					if f, ok := assertFactOf(guard{ifi.Cond, i == 0, ifi}); ok && !f.holds {
+						nf = map[string]bool{}
+						for k := range failed {
+							nf[k] = true
+						}
+						nf[typeStr(f.t)] = true
+						all := len(impl) > 0
+						for k := range impl {
+							if !nf[k] {
+								all = false
+							}
+						}
+						if all {
+							continue // no implementer left: infeasible
+						}
+					}
+				}
+			}
+			if sc == l.head {
+				bad = b
+				return true
+			}
+			if dfs(sc, nf, seen) {
+				return true
+			}
+		}
+		return false
+	}
+	found := false
+	for _, sc := range l.head.Succs {
+		if l.body[sc] && sc != l.head && dfs(sc, map[string]bool{}, map[*ssa.BasicBlock]bool{}) {
+			found = true
+		}
+	}
+	detail := "a selection that the directives do not exclude can be passed over"
+	pos := evCall.Pos()
+	if bad != nil {
+		detail += ": the iteration completes from " + c.pos(valPosInstr(bad)) + " without reaching a dispatch call, so its response keys are missing and its resolvers do not run although no @skip / @include says so"
+		pos = valPosInstr(bad)
+	}
+	r.check("C09.ONLY", fnName(w)+": every selection that is not excluded is dispatched", pos, !found, detail)
 }
 
 func c09Vars(c *Ctx, r *Report, w, ev *ssa.Function) {
@@ -438,6 +596,23 @@ func c09Vars(c *Ctx, r *Report, w, ev *ssa.Function) {
 			isVarsArg := false
 			raw := false
 			hasDefaults := false
+			// a map returned by the variable binder helper: look at what the helper returns
+			var more []phiLeaf
+			for _, lf := range leaves {
+				if ex, ok := lf.val.(*ssa.Extract); ok {
+					if call, ok := ex.Tuple.(*ssa.Call); ok {
+						if bf, via := varBinder(c, entry); via == call {
+							for _, rt := range returnsOf(bf) {
+								if ex.Index < len(rt.Results) {
+									ls, _ := phiLeaves(rt.Results[ex.Index])
+									more = append(more, ls...)
+								}
+							}
+						}
+					}
+				}
+			}
+			leaves = append(leaves, more...)
 			for _, lf := range leaves {
 				if lf.val == rawVars {
 					raw = true
